@@ -300,4 +300,54 @@ theorem init_int (F : Nat) (c i : Int) (m : Int) (bf : Bool) (st0 : ISt) :
       · simp [hn]
     rw [hmod]
     pysimp [h0, h1, h2, Bool.not_false, excName, xUBXMessageError]
+/-! ### `__setattr__` / `__delattr__`: the immutability guard -/
+
+/-- what the guard methods see of an object: the flag, and the writes / deletions that reach `object` -/
+structure GSt where
+  immutable : Bool
+  writes : List (V NO_ × V NO_)
+  dels : List (V NO_)
+
+def guardHost : Host NO_ GSt where
+  glob := fun _ => none
+  call := fun f _ _ st => if f = 0x7375706572 then (.ok (.host .super), st) else (raiseX xUnsupported, st)
+  mcall := fun obj m args _ st =>
+    match obj with
+    | .host .super =>
+      if m = 0x5f5f736574617474725f5f then
+        match args with
+        | [n, v] => (.ok .none, { st with writes := st.writes ++ [(n, v)] })
+        | _ => (raiseX xUnsupported, st)
+      else if m = 0x5f5f64656c617474725f5f then
+        match args with
+        | [n] => (.ok .none, { st with dels := st.dels ++ [n] })
+        | _ => (raiseX xUnsupported, st)
+      else (raiseX xUnsupported, st)
+    | _ => (raiseX xUnsupported, st)
+  attr := fun obj a st =>
+    match obj with
+    | .host .self => if a = 0x5f696d6d757461626c65 then .ok (.bool st.immutable) else raiseX xUnsupported
+    | _ => raiseX xUnsupported
+  setattr := fun _ _ _ st => (raiseX xUnsupported, st)
+  index := fun _ _ _ => raiseX xUnsupported
+  contains := fun _ _ _ => raiseX xUnsupported
+  truthy := fun _ => true
+  eqHost := fun _ _ => false
+
+/-- `__setattr__` as written: an immutable object refuses with UBXMessageError and nothing reaches `object.__setattr__`;
+    a mutable one passes the write on unchanged -/
+theorem setattr_eq (F : Nat) (n v : V NO_) (st : GSt) :
+    runFn guardHost F fn_UBXMessage___setattr__ [.host .self, n, v] st
+      = (if st.immutable then (.error (.exc xUBXMessageError 0), st) else (.ok .none, { st with writes := st.writes ++ [(n, v)] })) := by
+  simp only [runFn, fn_UBXMessage___setattr__, List.zip_cons_cons, List.zip_nil_right]
+  cases h : st.immutable <;> (rw [execB_cons]; pysimp [guardHost, h, builtinMethod, Bool.false_eq_true])
+
+/-- `__delattr__` as written: likewise -/
+theorem delattr_eq (F : Nat) (n : V NO_) (st : GSt) :
+    runFn guardHost F fn_UBXMessage___delattr__ [.host .self, n] st
+      = (if st.immutable then (.error (.exc xUBXMessageError 0), st) else (.ok .none, { st with dels := st.dels ++ [n] })) := by
+  simp only [runFn, fn_UBXMessage___delattr__, List.zip_cons_cons, List.zip_nil_right]
+  cases h : st.immutable <;> (rw [execB_cons]; pysimp [guardHost, h, builtinMethod, Bool.false_eq_true])
+
+
 end Ubx.Py
